@@ -213,14 +213,21 @@ func UtxoValidateValueNotConservedUtxo(
 	if fee := tx.Fee(); fee != nil {
 		producedValue.Add(producedValue, fee)
 	}
+	// A pool deposit is paid once per newly registered pool: no deposit for a pool that is
+	// already registered or whose registration is repeated within this transaction
+	newPools := make(map[common.PoolKeyHash]struct{})
 	for _, cert := range tx.Certificates() {
 		switch tmpCert := cert.(type) {
 		case *common.PoolRegistrationCertificate:
+			if _, ok := newPools[tmpCert.Operator]; ok {
+				continue
+			}
 			reg, _, err := ls.PoolCurrentState(common.Blake2b224(tmpCert.Operator))
 			if err != nil {
 				return err
 			}
 			if reg == nil {
+				newPools[tmpCert.Operator] = struct{}{}
 				producedValue.Add(producedValue, new(big.Int).SetUint64(uint64(tmpPparams.PoolDeposit)))
 			}
 		case *common.StakeRegistrationCertificate:
